@@ -3,6 +3,7 @@
 -/
 import KamalProxy.Proofs.Control
 import KamalProxy.Proofs.SplitSticky
+import KamalProxy.Proofs.RolloutSticky
 namespace KamalProxy.C10
 open KamalProxy
 
@@ -165,6 +166,28 @@ example : pickSlot ⟨[], ⟨[], [], false, [], [], false, [], [], [], false⟩,
     some [asciiB "r:80"], Pause.init, some ⟨100, []⟩, false⟩
     [asciiB "x=1; kamal-rollout=u7"] = .rollout := by decide
 
+
+/-- Rollout targets, once deployed, stay attached under every command except `remove n` and a restart … -/
+theorem C10_rollout_targets_survive_history (cmds : List Cmd) (c : Core) (n : Bytes)
+    (h : hasRollout c.svcs n = some true) (hc : ∀ cmd ∈ cmds, dropsRollout n cmd = false) :
+    hasRollout (cmds.foldl (fun c cmd => (stepCore c cmd).1) c).svcs n = some true := by
+  induction cmds generalizing c with
+  | nil => exact h
+  | cons cmd rest ih =>
+    simp only [List.foldl_cons]
+    exact ih _ (rollout_survives c cmd n h (hc cmd (List.mem_cons_self ..)))
+      (fun x hx => hc x (List.mem_cons_of_mem _ hx))
+
+/-- … and the decision depends on the service only through "rollout targets exist" and the split: two service
+    records that agree on both send every request to the same slot. With the two history theorems: for a service
+    with rollout targets, no sequence of commands other than `rollout set/stop n`, `remove n` and restart changes
+    any client's assignment. -/
+theorem C10_decision_depends_on (v w : Svc) (cookies : List Bytes)
+    (hr : v.rollout.isSome = w.rollout.isSome) (hs : v.split = w.split) :
+    pickSlot v cookies = pickSlot w cookies := by
+  unfold pickSlot
+  rw [hs]
+  cases hv : v.rollout <;> cases hw : w.rollout <;> simp_all <;> cases w.split <;> rfl
 
 def o1 : SvcOptions := ⟨[asciiB "a.com"], [], false, [], [], true, [], [], [], true⟩
 def o2 : SvcOptions := ⟨[asciiB "b.com"], [], false, [], [], true, [], [], [], true⟩
